@@ -352,6 +352,14 @@ def gen_case(rng, features=None, max_datasets=4, allow_full=True, allow_two_grou
                 ti = sorted(rng.choice(len(d["t"]), 2, replace=True))
                 w["model_interval"] = [d["t"][ti[0]], d["t"][ti[1]]]
             case["weights"].append(w)
+            if rng.integers(3) == 0:
+                # a second weight item for the SAME dataset that leaves out an interval the first one set (the weights
+                # multiply; an item without interval acts on the whole axis)
+                w2 = {"datasets": [d["label"]], "value": float(np.round(rng.uniform(0.2, 3.0), 3)),
+                      "global_interval": None if (w["global_interval"] is not None or rng.integers(2)) else w["global_interval"],
+                      "model_interval": None if rng.integers(2) else w["model_interval"]}
+                case["weights"].append(w2)
+                F["two_weight_items_per_dataset"] = True
     case["features"] = {k: (v if not isinstance(v, (np.generic,)) else v.item()) for k, v in F.items()}
     case["features"]["label_pool"] = label_pool
     return case
